@@ -456,6 +456,8 @@ def _detail_set(detail: Any) -> list:
     return sorted(detail, key=str) if isinstance(detail, list) else []
 
 
+CHECKED_FORMATS = {"date", "date-time", "uuid", "ipv4", "ipv6", "uri", "uri-reference", "iri", "iri-reference", "uri-template", "regex", "json-pointer",
+                   "relative-json-pointer", "hostname", "idn-hostname", "email", "idn-email", "time", "duration"}
 _PRIORITY = ["no-witness", "oneOf", "anyOf", "nullable", "type-array", "exclusive-bool", "zero-bound", "allOf", "not", "format",
              "pattern+length", "zero-length", "minProperties", "multipleOf", "readOnly", "ref"]
 
@@ -479,9 +481,11 @@ def features(desc: dict) -> set:
                 out.add("zero-bound")
             if e.get("maxLength") == 0 or e.get("maxItems") == 0:
                 out.add("zero-length")
-            for k in ("oneOf", "anyOf", "allOf", "not", "format", "minProperties", "multipleOf", "readOnly", "ref"):
+            for k in ("oneOf", "anyOf", "allOf", "not", "minProperties", "multipleOf", "readOnly", "ref"):
                 if k in e:
                     out.add(k)
+            if "format" in e:      # formats a common checker implements are named; the rest (byte, custom) stay the class "format"
+                out.add("format:" + e["format"] if e["format"] in CHECKED_FORMATS else "format")
             if e.get("nullable"):
                 out.add("nullable" if d != "3.1" else "type-array")
             if "pattern" in e and ("minLength" in e or "maxLength" in e):
@@ -498,6 +502,10 @@ def primary(feats: set) -> str:
     for f in _PRIORITY:
         if f in feats:
             return f
+        if f == "format":
+            named = sorted(x for x in feats if x.startswith("format:"))
+            if named:
+                return named[0]
     return "plain"
 
 
